@@ -28,6 +28,9 @@ def make_batch(rng, m):
     """m sentences sharing categories, grammar, roots and configuration"""
     base = S.random_problem(rng, max_n=4, multi=rng.random() < 0.5, mixed_heads=rng.random() < 0.3,
                             nbest_max=rng.choice([1, 1, 3]))
+    if rng.random() < 0.5:
+        symmetrise(base)
+    base.max_step = 200000          # a safety net for the check itself, far above what these sentences need
     K = G.problem_K(base)
     cats = G.category_pool(K, rng)
     gram = G.TableGrammar(cats, base.bin, base.un)
@@ -40,6 +43,67 @@ def make_batch(rng, m):
         p.deps = [[rng.randint(lo, 0) for _ in range(p.n + 1)] for _ in range(p.n)]
         sents.append(p)
     return base, cats, gram, sents
+
+
+def flip_scenario(rng):
+    """two alternative derived categories X, Y of one pair, Y also derivable from another pair in
+    another sentence: the order in which X and Y enter the category table depends on the batch
+    history, and both lead to equally scored, different trees"""
+    p = S.Problem()
+    p.T = 5
+    X, Y, R = 5, 6, 7
+    h = rng.random() < 0.5
+    p.bin = {(0, 1): [(X, h), (Y, h)], (2, 3): [(Y, h)], (X, 4): [(R, h)], (Y, 4): [(R, h)]}
+    if rng.random() < 0.5:
+        p.bin[(0, 1)] = [(Y, h), (X, h)]
+    if rng.random() < 0.5:
+        p.bin[(4, 4)] = [(4, h)]
+    p.un = {}
+    p.roots = [R]
+    p.penalty = 6
+    p.nbest = rng.choice([1, 1, 2])
+    p.head_uniform = True
+    K = 8
+    cats = G.category_pool(K, rng)
+    gram = G.TableGrammar(cats, p.bin, p.un)
+    sents = []
+    for lex in ([2, 3, 4], [0, 1, 4], [2, 3], [0, 1, 4], [2, 3, 4]):
+        q = S.Problem.from_json(p.to_json())
+        q.n = len(lex)
+        q.tags = [[(-10 if c == lex[i] else -rng.randint(900, 2000)) for c in range(q.T)] for i in range(q.n)]
+        q.deps = [[-rng.randint(10, 500) for _ in range(q.n + 1)] for _ in range(q.n)]
+        sents.append(q)
+    rng.shuffle(sents)
+    return p, cats, gram, sents
+
+
+def symmetrise(p):
+    """make alternative results of one category pair interchangeable downstream: exact score ties
+    between different derived categories that lead to different, equally scored trees (the situation
+    in which any dependence on category numbering shows)"""
+    for key in list(p.bin):
+        rs = p.bin[key]
+        if len(rs) < 2:
+            continue
+        h = rs[0][1]
+        rs = [(c, h) for c, _ in rs]
+        p.bin[key] = rs
+        first = rs[0][0]
+        for c, _ in rs[1:]:
+            if c == first:
+                continue
+            for (x, y), out in list(p.bin.items()):
+                if x == first and (c, y) not in p.bin:
+                    p.bin[(c, y)] = list(out)
+                if y == first and (x, c) not in p.bin:
+                    p.bin[(x, c)] = list(out)
+            if first in p.roots and c not in p.roots:
+                p.roots.append(c)
+            if first in p.un and c not in p.un:
+                # keep the unary table acyclic (targets have larger ids than their source)
+                ts = [t for t in p.un[first] if t > c]
+                if ts:
+                    p.un[c] = ts
 
 
 class CountingGrammar(object):
@@ -88,7 +152,11 @@ def run(ctx):
     pool_runs = 0
     for b in range(nb):
         m = rng.randint(2, 7)
-        base, cats, gram, sents = make_batch(rng, m)
+        if b % 4 == 1:
+            base, cats, gram, sents = flip_scenario(rng)
+            m = len(sents)
+        else:
+            base, cats, gram, sents = make_batch(rng, m)
         max_length = rng.choice([250, 250, 3])
         if rng.random() < 0.3:
             for p in sents:
